@@ -199,6 +199,10 @@ def plans(draw, nodes, links, origins, dests):
         ops.insert(pos, ["dummy", i])
         if draw(st.booleans()):
             ops.insert(pos + 1, [draw(st.sampled_from(["read", "trystep"]))])
+    # an origin / destination object that already served in another network
+    if (origins or dests) and draw(st.integers(0, 7)) == 0:
+        e = draw(st.sampled_from([o["id"] for o in origins] + [d["id"] for d in dests]))
+        ops.insert(0, ["elsewhere", e])
     # interleave reads / steps of the partially built network (histories: build, use, extend, use)
     for _ in range(draw(st.sampled_from([0, 0, 1, 2]))):
         ops.insert(draw(st.integers(0, len(ops))), [draw(st.sampled_from(["read", "trystep"]))])
